@@ -14,6 +14,8 @@ indexes, time) is an input: that it is only produced for an authenticated peer i
 -/
 import Nebula.Lemmas.HsManagerStep
 import Nebula.Lemmas.HsCompose
+import Nebula.Lemmas.HsVia
+import Nebula.Lemmas.HsNetVia
 
 namespace Nebula.Props.C09
 open Nebula.HsManager Nebula.Lemmas.HsManager
@@ -217,6 +219,477 @@ example : ((((Sys.init cfg0).run infoEx [.recv1 1 77 2 0 mcEx 2 callEx]).node.ma
 example : (((Sys.init cfg0).run infoEx [.recv1 1 77 2 0 mcEx 2
     (.pkt 100 0 (.ok (Nebula.Payload.marshalPayload [] { cert := [1, 2, 3], initiatorIndex := 9, time := 5, certVersion := 2 }) false false [7, 7])
       ⟨some ([7, 7], 2), none⟩ 11 (.ok true true))]).node.main) = {} := by decide
+
+end
+
+/-! ### Remote allow list (lighthouse.remote_allow_list / remote_allow_ranges) and relayed handshake packets
+
+Stated over the extended model (Model/HsManagerVia.lean): `NodeX.beginHandshake` / `NodeX.continueHandshake` are
+HandleIncoming + beginHandshake / continueHandshake with the allow list `al` as a PARAMETER (any predicate pair) and the
+sender `via` either direct (underlay address) or relayed. -/
+
+/-- HandleIncoming's first check: a sender the main list refuses is dropped before anything is looked at or run. -/
+theorem denied_unknown_drops (al : AllowList) (x : NodeX) (u : UNode) (hd : al.unknown u = false)
+    (pkt : Handle) (res : Option Completed) (rv now idx : Nat) (res2 : S2Res) :
+    x.beginHandshake al (.direct u) pkt res rv now = (x, {}) ∧
+    x.continueHandshake al (.direct u) idx res2 = (x, {}) := by
+  constructor
+  · unfold NodeX.beginHandshake; simp [Via.allowedUnknown, hd]
+  · unfold NodeX.continueHandshake; simp [Via.allowedUnknown, hd]
+
+/-- Responder, every state: a first message whose VERIFIED certificate has ANY address for which the list refuses the
+sender's underlay address creates no state: main hostmap, pending tables, lighthouse cache, timer wheel, object
+allocation, relay bookkeeping untouched; nothing is sent, no packet is made (only the index and the handle the
+Machine had already consumed are gone). -/
+theorem denied_underlay_installs_nothing_responder (al : AllowList) (x : NodeX) (u : UNode) (pkt : Handle)
+    (c : Completed) (rv now : Nat) (hd : al.all c.certAddrs u = false) :
+    let r := x.beginHandshake al (.direct u) pkt (some c) rv now
+    r.1.n.main = x.n.main ∧ r.1.n.p.vpnIps = x.n.p.vpnIps ∧ r.1.n.p.pindexes = x.n.p.pindexes ∧
+    r.1.n.p.lh = x.n.p.lh ∧ r.1.n.p.wheel = x.n.p.wheel ∧ r.1.n.p.nextObj = x.n.p.nextObj ∧
+    r.1.relays = x.relays ∧ r.2 = {} := by
+  intro r
+  have hr : r = x.beginHandshake al (.direct u) pkt (some c) rv now := rfl
+  unfold NodeX.beginHandshake at hr
+  by_cases h0 : (!Via.allowedUnknown al (.direct u)) = true
+  · rw [if_pos h0] at hr
+    rw [hr]; exact ⟨rfl, rfl, rfl, rfl, rfl, rfl, rfl, rfl⟩
+  · rw [if_neg h0] at hr
+    have h1 : (!peerCertOk x.n.cfg c || !Via.allowedAll al c.certAddrs (.direct u)) = true := by
+      simp [Via.allowedAll, hd]
+    dsimp only at hr
+    rw [if_pos h1] at hr
+    rw [hr]
+    have g := genIndexX_frame x.n.cfg 8 x.n.p
+    exact ⟨rfl, g.1, g.2.1, g.2.2.1, g.2.2.2.1, g.2.2.2.2, rfl, rfl⟩
+
+/-- Initiator, every state: a continuation message from an underlay address the list refuses for the DIALLED address
+changes nothing at all (it is dropped before the Machine sees it: the pending handshake stays as it was). -/
+theorem denied_underlay_installs_nothing_initiator (al : AllowList) (x : NodeX) (u : UNode) (idx : Nat) (res : S2Res)
+    (hh : Pending) (hl : (alookup idx x.n.p.pindexes).bind x.n.p.pendingById = some hh)
+    (hd : al.all [hh.vpnAddr] u = false) :
+    x.continueHandshake al (.direct u) idx res = (x, {}) := by
+  unfold NodeX.continueHandshake
+  dsimp only
+  rw [hl]
+  simp [Via.allowedAll, hd]
+
+/-- What the list is asked, responder: the outcome of a first message depends on the allow list ONLY through its
+answers to AllowUnknownVpnAddr(sender) and AllowAll(addresses of the VERIFIED certificate, sender) — two lists that
+agree on these two questions are indistinguishable, whatever they say about any other address. -/
+theorem allowlist_checked_on_certified_addresses (al1 al2 : AllowList) (x : NodeX) (u : UNode) (pkt : Handle)
+    (c : Completed) (rv now : Nat)
+    (h0 : al1.unknown u = al2.unknown u) (h1 : al1.all c.certAddrs u = al2.all c.certAddrs u) :
+    x.beginHandshake al1 (.direct u) pkt (some c) rv now = x.beginHandshake al2 (.direct u) pkt (some c) rv now := by
+  unfold NodeX.beginHandshake
+  cases hA : al1.unknown u <;> cases hB : al1.all c.certAddrs u <;> rw [hA] at h0 <;> rw [hB] at h1 <;>
+    simp only [Via.allowedUnknown, Via.allowedAll, hA, hB, ← h0, ← h1]
+
+/-- What the list is asked, initiator: AllowUnknownVpnAddr(sender) and AllowAll([dialled address], sender) — the
+pending hostinfo's address, which for every installed tunnel is one of the verified certificate's addresses
+(`initiator_asked_address_is_certified`) but is NOT all of them (`initiator_not_asked_about_other_certificate_addresses`). -/
+theorem allowlist_checked_on_dialled_address_initiator (al1 al2 : AllowList) (x : NodeX) (u : UNode) (idx : Nat) (res : S2Res)
+    (h0 : al1.unknown u = al2.unknown u)
+    (h1 : ∀ hh, (alookup idx x.n.p.pindexes).bind x.n.p.pendingById = some hh → al1.all [hh.vpnAddr] u = al2.all [hh.vpnAddr] u) :
+    x.continueHandshake al1 (.direct u) idx res = x.continueHandshake al2 (.direct u) idx res := by
+  unfold NodeX.continueHandshake
+  dsimp only
+  cases hl : (alookup idx x.n.p.pindexes).bind x.n.p.pendingById with
+  | none => cases hA : al1.unknown u <;> rw [hA] at h0 <;> simp [Via.allowedUnknown, hA, ← h0]
+  | some hh =>
+    have h1 := h1 hh hl
+    cases hA : al1.unknown u <;> cases hB : al1.all [hh.vpnAddr] u <;> rw [hA] at h0 <;> rw [hB] at h1 <;>
+      simp only [Via.allowedUnknown, Via.allowedAll, hA, hB, ← h0, ← h1]
+
+/-- whenever the initiator installs anything, the address the allow list was asked about is one of the certificate's -/
+theorem initiator_asked_address_is_certified (al : AllowList) (x : NodeX) (via : Via) (idx : Nat) (c : Completed)
+    (hne : (x.continueHandshake al via idx (.completed c)).1.n.main ≠ x.n.main) :
+    ∃ hh, (alookup idx x.n.p.pindexes).bind x.n.p.pendingById = some hh ∧ hh.vpnAddr ∈ c.certAddrs ∧
+      via.allowedAll al [hh.vpnAddr] = true ∧
+      (x.continueHandshake al via idx (.completed c)).1.n.main = x.n.main.addHostInfo (initiatorHostInfoX hh via c) := by
+  revert hne
+  unfold NodeX.continueHandshake
+  dsimp only
+  split
+  · intro h; exact absurd rfl h
+  split
+  · intro h; exact absurd rfl h
+  rename_i hh hl
+  split
+  · intro h; exact absurd rfl h
+  rename_i hall
+  split
+  · intro h; exact absurd rfl h
+  split
+  · intro h; exact absurd rfl h
+  split
+  · intro h; exact absurd rfl h
+  · rename_i hw
+    intro _
+    refine ⟨hh, hl, ?_, by simpa using hall, ?_⟩
+    · simpa using hw
+    · cases via <;> rfl
+
+
+/-- underlay address 1 is refused for overlay address 5 only (a remote_allow_ranges entry for 5) -/
+def alDeny5 : AllowList := { base := fun _ => true, inside := fun a u => !(a == 5 && u == 1) }
+
+/-- the state of an initiator that dialled address 2 and has sent its first message -/
+def xDial2 : NodeX := (NodeX.init cfg0).run alDeny5 [.base (.lh 2 1), .base (.rehs 2), .base (.tick 0), .base (.tick 100000000), .base (.tick 200000000)]
+
+/-- OBSERVATION (outside C09 — the property says nothing about the allow list; not a finding): the responder's form of
+`denied_underlay_installs_nothing` (sender refused for ANY certificate address ⇒ nothing installed) does NOT hold for the
+initiator: continueHandshake asks the list about the dialled address before the certificate is known and never again.
+Witness: the list refuses underlay 1 for overlay address 5 only; a responder refuses the certificate [2, 5] from
+underlay 1, an initiator that dialled 2 installs the tunnel from underlay 1 under both 2 and 5. -/
+theorem initiator_not_asked_about_other_certificate_addresses :
+    alDeny5.all c0.certAddrs 1 = false ∧
+    -- responder: refused
+    ((NodeX.init cfg0).beginHandshake alDeny5 (.direct 1) 77 (some c0) 2 0).1.n.main = {} ∧
+    -- initiator that dialled 2: the tunnel is installed under BOTH addresses, 5 included
+    (((xDial2.continueHandshake alDeny5 (.direct 1) 1001 (.completed c0)).1.n.main.getList 5).map (·.vpnAddrs)) = [[2, 5]] := by
+  decide
+
+/-- The binding theorem over ALL histories of the extended node — every base event, direct and relayed first and
+continuation messages with arbitrary Machine results, relay set-ups — for EVERY allow list. -/
+theorem tunnels_bound_to_certified_address_x (al : AllowList) (cfg : Cfg) (evs : List EvX) (a : Addr) (h : HostInfo)
+    (hm : h ∈ ((NodeX.init cfg).run al evs).n.main.getList a) :
+    a ∈ h.vpnAddrs ∧ (∃ c ∈ compsX evs, h.vpnAddrs = c.certAddrs ∧ a ∈ c.certAddrs) ∧
+      ∀ y ∈ h.vpnAddrs, y ∉ cfg.myAddrs := by
+  have g := (runX_good al evs (NodeX.init cfg) [] (Good.empty _)).2
+  obtain ⟨ha, hself, c, hc, e⟩ := g.1 a h hm
+  exact ⟨ha, ⟨c, by simpa using hc, e, e ▸ ha⟩, hself⟩
+
+theorem no_tunnel_to_own_address_x (al : AllowList) (cfg : Cfg) (evs : List EvX) (a : Addr) (ha : a ∈ cfg.myAddrs) :
+    ((NodeX.init cfg).run al evs).n.main.getList a = [] := by
+  cases hl : ((NodeX.init cfg).run al evs).n.main.getList a with
+  | nil => rfl
+  | cons h t =>
+    have hm : h ∈ ((NodeX.init cfg).run al evs).n.main.getList a := by rw [hl]; simp
+    have := tunnels_bound_to_certified_address_x al cfg evs a h hm
+    exact absurd ha (this.2.2 a this.1)
+
+/-- not weaker: with a list that allows the sender, a direct first message is handled exactly as in the base model
+(unless it is a duplicate for a tunnel without a remote, which only relayed handshakes create) -/
+theorem direct_allowed_stage1_is_base (al : AllowList) (x : NodeX) (u : UNode) (pkt : Handle) (res : Option Completed)
+    (rv now : Nat) (h0 : al.unknown u = true) (h1 : ∀ c, res = some c → al.all c.certAddrs u = true)
+    (hrem : ∀ b h, h ∈ x.n.main.getList b → h.remote.isSome) :
+    x.beginHandshake al (.direct u) pkt res rv now =
+      ({ x with n := (x.n.beginHandshake u pkt res rv now).1 }, (x.n.beginHandshake u pkt res rv now).2.toX) := by
+  unfold NodeX.beginHandshake Node.beginHandshake
+  cases res with
+  | none => simp [Via.allowedUnknown, h0, Out.toX]
+  | some c =>
+    have h1 := h1 c rfl
+    simp only [Via.allowedUnknown, Via.allowedAll, h0, h1, prepareResponderX_direct]
+    by_cases hok : peerCertOk x.n.cfg c = true
+    · simp only [hok]
+      generalize hprep : x.n.p.prepareResponder x.n.cfg u pkt c rv = r
+      obtain ⟨p, hi, rid⟩ := r
+      simp only [Bool.not_true, Bool.or_self, Bool.false_eq_true, ↓reduceIte]
+      cases hcac : checkAndComplete x.n.main p.pindexes hi with
+      | none => simp [NodeX.sendResponse, Out.toX]
+      | some e =>
+        cases e with
+        | alreadySeen ex =>
+          have hex : ex.remote.isSome := by
+            unfold checkAndComplete at hcac
+            dsimp only at hcac
+            split at hcac
+            · rename_i e he
+              split at he
+              · split at he
+                · rename_i t ht
+                  simp only [Option.some.injEq] at he
+                  subst he
+                  simp only [Option.some.injEq, CacErr.alreadySeen.injEq] at hcac
+                  subst hcac
+                  exact hrem _ _ (List.mem_of_find?_eq_some ht)
+                · split at he
+                  · simp only [Option.some.injEq] at he; subst he; simp at hcac
+                  · simp at he
+              · simp at he
+            · split at hcac
+              · simp at hcac
+              · split at hcac <;> simp at hcac
+          cases hr : ex.remote with
+          | none => rw [hr] at hex; simp at hex
+          | some ur =>
+            cases hp2 : ex.pkt2 with
+            | none => simp [hr, hp2, Out.toX]
+            | some p2 => simp [hr, hp2, NodeX.sendResponse, Out.toX]
+        | existing ex => simp [Out.toX]
+        | collision => simp [Out.toX]
+    · simp [hok, Out.toX]
+
+theorem direct_allowed_stage2_is_base (al : AllowList) (x : NodeX) (u : UNode) (idx : Nat) (res : S2Res)
+    (h0 : al.unknown u = true)
+    (h1 : ∀ hh, (alookup idx x.n.p.pindexes).bind x.n.p.pendingById = some hh → al.all [hh.vpnAddr] u = true) :
+    x.continueHandshake al (.direct u) idx res =
+      ({ x with n := (x.n.continueHandshake u idx res).1 }, (x.n.continueHandshake u idx res).2.toX) := by
+  unfold NodeX.continueHandshake Node.continueHandshake
+  dsimp only
+  cases hl : (alookup idx x.n.p.pindexes).bind x.n.p.pendingById with
+  | none => simp [Via.allowedUnknown, h0, Out.toX]
+  | some hh =>
+    have h1 := h1 hh hl
+    simp only [Via.allowedUnknown, Via.allowedAll, h0, h1]
+    by_cases hr : hh.ready = true
+    · cases res with
+      | err failed => cases failed <;> simp [hr, Out.toX]
+      | completed c =>
+        simp only [hr, initiatorHostInfoX_direct]
+        cases hs : (c.certAddrs.any fun a => x.n.cfg.myAddrs.contains a)
+        · cases hw : c.certAddrs.contains hh.vpnAddr
+          · simp only [Bool.false_eq_true, ↓reduceIte, Bool.not_false, Bool.not_true, Out.toX, List.map_cons, List.map_nil]
+          · simp only [Bool.false_eq_true, ↓reduceIte, Bool.not_false, Bool.not_true, Out.toX, List.map_map]
+            rfl
+        · simp only [Bool.false_eq_true, ↓reduceIte, Bool.not_false, Bool.not_true, Out.toX, List.map_nil]
+    · simp [hr, Out.toX]
+
+
+
+/-- RELAYED vs DIRECT, responder, every state and every first message: handled through a relay, a first message has
+exactly the effect it has when it arrives directly from an allowed underlay address — same pending tables, same
+allocations, same stage-2 packet, same CheckAndComplete decision, and if a tunnel is installed it is the SAME tunnel
+(identity, certificate addresses, indexes, times, packets) except that its remote is empty and the relay host is
+recorded in its relayState; where the direct duplicate of a known first message would set the remote of a tunnel
+that has none (SetRemoteIfPreferred), the relayed one leaves the hostmap alone. -/
+theorem relayed_handshake_binds_same (al : AllowList) (x : NodeX) (u : UNode) (r : Addr) (ru : UNode) (pa : Addr)
+    (pkt : Handle) (c : Completed) (rv now : Nat)
+    (h0 : al.unknown u = true) (h1 : al.all c.certAddrs u = true) :
+    let d := x.beginHandshake al (.direct u) pkt (some c) rv now
+    let y := x.beginHandshake al (.relayed r ru pa) pkt (some c) rv now
+    -- same pending tables, same allocation, same packet made
+    y.1.n.p.vpnIps = d.1.n.p.vpnIps ∧ y.1.n.p.pindexes = d.1.n.p.pindexes ∧ y.1.n.p.nextObj = d.1.n.p.nextObj ∧
+    y.1.n.p.nextH = d.1.n.p.nextH ∧ y.2.made = d.2.made ∧
+    -- same decision on the main hostmap
+    ((∃ hi, hi.vpnAddrs = c.certAddrs ∧ hi.remote = some u ∧
+        d.1.n.main = x.n.main.addHostInfo hi ∧ y.1.n.main = x.n.main.addHostInfo { hi with remote := none } ∧
+        d.1.relays = x.relays ∧ y.1.relays = (x.insertRelayTo hi.id r).relays) ∨
+     (y.1.n.main = x.n.main ∧ (d.1.n.main = x.n.main ∨ ∃ id, d.1.n.main = x.n.main.setRemote id u))) := by
+  intro d y
+  have hd : d = x.beginHandshake al (.direct u) pkt (some c) rv now := rfl
+  have hy : y = x.beginHandshake al (.relayed r ru pa) pkt (some c) rv now := rfl
+  unfold NodeX.beginHandshake at hd hy
+  simp only [Via.allowedUnknown, Via.allowedAll, h0, h1] at hd hy
+  by_cases hok : peerCertOk x.n.cfg c = true
+  · simp only [hok, Bool.not_true, Bool.or_self, Bool.false_eq_true, ↓reduceIte] at hd hy
+    have hp := prepareResponderX_relayed x.n.cfg x.n.p u r ru pa pkt c rv
+    dsimp only at hp
+    generalize hpd : x.n.p.prepareResponderX x.n.cfg (.direct u) pkt c rv = pd at hp hd
+    generalize hpy : x.n.p.prepareResponderX x.n.cfg (.relayed r ru pa) pkt c rv = py at hp hy
+    obtain ⟨p1, hi1, rid1⟩ := pd
+    obtain ⟨p2, hi2, rid2⟩ := py
+    obtain ⟨ehi, erid, e1, e2, e3, e4, e5, e6, e7, hrem, hva⟩ := hp
+    dsimp only at ehi erid e1 e2 e3 e4 e5 e6 e7 hrem hva hd hy
+    subst ehi erid
+    rw [e2, checkAndComplete_remote] at hy
+    cases hcac : checkAndComplete x.n.main p1.pindexes hi1 with
+    | none =>
+      rw [hcac] at hd hy
+      dsimp only [NodeX.sendResponse] at hd hy
+      rw [hd, hy]
+      refine ⟨?_, ?_, ?_, ?_, rfl, Or.inl ⟨hi1, hva, hrem, rfl, ?_, rfl, ?_⟩⟩
+      · simpa [insertRelayTo_n] using e1
+      · simpa [insertRelayTo_n] using e2
+      · simpa [insertRelayTo_n] using e3
+      · simpa [insertRelayTo_n] using e4
+      · simp [insertRelayTo_n]
+      · exact insertRelayTo_relays x _ _ r rfl
+    | some e =>
+      rw [hcac] at hd hy
+      dsimp only at hd hy
+      cases e with
+      | alreadySeen ex =>
+        dsimp only at hd hy
+        cases hp2 : ex.pkt2 with
+        | none =>
+          rw [hp2] at hd hy
+          rw [hd, hy]
+          refine ⟨e1, e2, e3, e4, rfl, Or.inr ⟨rfl, ?_⟩⟩
+          cases ex.remote with
+          | none => exact Or.inr ⟨_, rfl⟩
+          | some _ => exact Or.inl rfl
+        | some q =>
+          rw [hp2] at hd hy
+          rw [hd, hy]
+          dsimp only [NodeX.sendResponse]
+          refine ⟨by simpa [insertRelayTo_n] using e1, by simpa [insertRelayTo_n] using e2, by simpa [insertRelayTo_n] using e3,
+            by simpa [insertRelayTo_n] using e4, rfl, Or.inr ⟨by simp [insertRelayTo_n], ?_⟩⟩
+          cases ex.remote with
+          | none => exact Or.inr ⟨_, rfl⟩
+          | some _ => exact Or.inl rfl
+      | existing ex => rw [hd, hy]; exact ⟨e1, e2, e3, e4, rfl, Or.inr ⟨rfl, Or.inl rfl⟩⟩
+      | collision => rw [hd, hy]; exact ⟨e1, e2, e3, e4, rfl, Or.inr ⟨rfl, Or.inl rfl⟩⟩
+  · simp only [hok] at hd hy
+    rw [hd, hy]
+    exact ⟨rfl, rfl, rfl, rfl, rfl, Or.inr ⟨rfl, Or.inl rfl⟩⟩
+
+
+
+/-- … and the initiator: a stage-2 message through a relay completes, restarts or abandons the pending handshake
+exactly as the same message arriving directly; the installed tunnel differs only in the empty remote and the relay
+recorded for it. -/
+theorem relayed_handshake_binds_same_initiator (al : AllowList) (x : NodeX) (u : UNode) (r : Addr) (ru : UNode) (pa : Addr)
+    (idx : Nat) (res : S2Res) (h0 : al.unknown u = true)
+    (h1 : ∀ hh, (alookup idx x.n.p.pindexes).bind x.n.p.pendingById = some hh → al.all [hh.vpnAddr] u = true) :
+    let d := x.continueHandshake al (.direct u) idx res
+    let y := x.continueHandshake al (.relayed r ru pa) idx res
+    y.1.n.p.vpnIps = d.1.n.p.vpnIps ∧ y.1.n.p.pindexes = d.1.n.p.pindexes ∧ y.1.n.p.nextObj = d.1.n.p.nextObj ∧
+    y.1.n.p.wheel = d.1.n.p.wheel ∧ y.2.flushed = d.2.flushed ∧
+    ((∃ hh c, res = .completed c ∧ (alookup idx x.n.p.pindexes).bind x.n.p.pendingById = some hh ∧
+        d.1.n.main = x.n.main.addHostInfo (initiatorHostInfoX hh (.direct u) c) ∧
+        y.1.n.main = x.n.main.addHostInfo { initiatorHostInfoX hh (.direct u) c with remote := none } ∧
+        (initiatorHostInfoX hh (.direct u) c).vpnAddrs = c.certAddrs ∧
+        d.1.relays = x.relays ∧ y.1.relays = (x.insertRelayTo hh.id r).relays) ∨
+     (y.1.n.main = x.n.main ∧ d.1.n.main = x.n.main)) := by
+  intro d y
+  have hd : d = x.continueHandshake al (.direct u) idx res := rfl
+  have hy : y = x.continueHandshake al (.relayed r ru pa) idx res := rfl
+  unfold NodeX.continueHandshake at hd hy
+  dsimp only at hd hy
+  simp only [Via.allowedUnknown, Via.allowedAll, h0] at hd hy
+  cases hl : (alookup idx x.n.p.pindexes).bind x.n.p.pendingById with
+  | none =>
+    rw [hl] at hd hy
+    simp only [Bool.not_true, Bool.false_eq_true, ↓reduceIte] at hd hy
+    rw [hd, hy]; exact ⟨rfl, rfl, rfl, rfl, rfl, Or.inr ⟨rfl, rfl⟩⟩
+  | some hh =>
+    rw [hl] at hd hy
+    simp only [h1 hh hl, Bool.not_true, Bool.false_eq_true, ↓reduceIte] at hd hy
+    cases hr : hh.ready with
+    | false =>
+      simp only [hr, Bool.not_false, ↓reduceIte] at hd hy
+      rw [hd, hy]; exact ⟨rfl, rfl, rfl, rfl, rfl, Or.inr ⟨rfl, rfl⟩⟩
+    | true =>
+      simp only [hr, Bool.not_true, Bool.false_eq_true, ↓reduceIte] at hd hy
+      cases res with
+      | err failed =>
+        cases failed <;> simp only [Bool.false_eq_true, ↓reduceIte] at hd hy <;> rw [hd, hy] <;>
+          exact ⟨rfl, rfl, rfl, rfl, rfl, Or.inr ⟨rfl, rfl⟩⟩
+      | completed c =>
+        dsimp only at hd hy
+        cases hs : (c.certAddrs.any fun a => x.n.cfg.myAddrs.contains a) with
+        | true =>
+          simp only [hs, ↓reduceIte, insertRelayTo_n] at hd hy
+          rw [hd, hy]; exact ⟨rfl, rfl, rfl, rfl, rfl, Or.inr ⟨by simp [insertRelayTo_n], rfl⟩⟩
+        | false =>
+          cases hw : c.certAddrs.contains hh.vpnAddr with
+          | false =>
+            simp only [hs, hw, Bool.false_eq_true, ↓reduceIte, Bool.not_false, insertRelayTo_n] at hd hy
+            rw [hd, hy]
+            dsimp only
+            exact ⟨(startHandshake_lh_irrel _ _ _ _ _ (by rfl) (by rfl) (by rfl) (by rfl)).1, (startHandshake_lh_irrel _ _ _ _ _ (by rfl) (by rfl) (by rfl) (by rfl)).2.1,
+              (startHandshake_lh_irrel _ _ _ _ _ (by rfl) (by rfl) (by rfl) (by rfl)).2.2.1, (startHandshake_lh_irrel _ _ _ _ _ (by rfl) (by rfl) (by rfl) (by rfl)).2.2.2,
+              rfl, Or.inr ⟨rfl, rfl⟩⟩
+          | true =>
+            simp only [hs, hw, Bool.false_eq_true, ↓reduceIte, Bool.not_true, insertRelayTo_n] at hd hy
+            rw [hd, hy]
+            refine ⟨by simp [insertRelayTo_n, PSide.deletePending], by simp [insertRelayTo_n, PSide.deletePending], rfl, rfl, rfl,
+              Or.inl ⟨hh, c, rfl, rfl, rfl, by simp [insertRelayTo_n]; rfl, rfl, rfl, rfl⟩⟩
+
+
+
+
+
+
+/-- both roles in one statement -/
+theorem denied_underlay_installs_nothing (al : AllowList) (x : NodeX) (u : UNode) :
+    (∀ pkt c rv now, al.all c.certAddrs u = false →
+      let r := x.beginHandshake al (.direct u) pkt (some c) rv now
+      r.1.n.main = x.n.main ∧ r.1.n.p.vpnIps = x.n.p.vpnIps ∧ r.1.n.p.pindexes = x.n.p.pindexes ∧ r.1.relays = x.relays ∧ r.2 = {}) ∧
+    (∀ idx res hh, (alookup idx x.n.p.pindexes).bind x.n.p.pendingById = some hh → al.all [hh.vpnAddr] u = false →
+      x.continueHandshake al (.direct u) idx res = (x, {})) := by
+  refine ⟨fun pkt c rv now hd => ?_, fun idx res hh hl hd => denied_underlay_installs_nothing_initiator al x u idx res hh hl hd⟩
+  have := denied_underlay_installs_nothing_responder al x u pkt c rv now hd
+  exact ⟨this.1, this.2.1, this.2.2.1, this.2.2.2.2.2.2.1, this.2.2.2.2.2.2.2⟩
+
+/-- A handshake message that arrives through a relay never records an underlay address: whatever tunnel it installs
+has no remote (both roles), and it never sets the remote of an existing tunnel. -/
+theorem relayed_records_no_underlay (al : AllowList) (x : NodeX) (r : Addr) (ru : UNode) (pa : Addr) :
+    (∀ pkt res rv now, let y := x.beginHandshake al (.relayed r ru pa) pkt res rv now
+      y.1.n.main = x.n.main ∨ ∃ hi, hi.remote = none ∧ y.1.n.main = x.n.main.addHostInfo hi) ∧
+    (∀ idx res, let y := x.continueHandshake al (.relayed r ru pa) idx res
+      y.1.n.main = x.n.main ∨ ∃ hi, hi.remote = none ∧ y.1.n.main = x.n.main.addHostInfo hi) := by
+  constructor
+  · intro pkt res rv now
+    rcases relayed_stage1_shape al x r ru pa pkt res rv now with h | ⟨hi, c, _, _, hr, hm, _⟩
+    · exact Or.inl h.1
+    · exact Or.inr ⟨hi, hr, hm⟩
+  · intro idx res
+    rcases (relayed_stage2_shape al x r ru pa idx res).1 with h | ⟨hh, c, _, _, hm, hr, _⟩
+    · exact Or.inl h
+    · exact Or.inr ⟨_, hr, hm⟩
+
+/-- Replies to a relayed handshake message go back through THAT relay: the responder's fresh reply and the cached reply
+for a duplicate are one SendVia through the relay the message came through (never a direct write), and the relay host
+is then in the answered tunnel's relayState; what an initiator sends on completion / wrong responder goes through a
+relay too. -/
+theorem relayed_reply_goes_via_relay (al : AllowList) (x : NodeX) (r : Addr) (ru : UNode) (pa : Addr) :
+    (∀ pkt res rv now, let y := x.beginHandshake al (.relayed r ru pa) pkt res rv now
+      y.2.tx = [] ∨ ∃ h id, y.2.tx = [.hsVia h r ru] ∧ r ∈ y.1.relaysOf id) ∧
+    (∀ idx res, let y := x.continueHandshake al (.relayed r ru pa) idx res
+      ∀ t ∈ y.2.tx, (∃ len r' ru', t = .msgVia len r' ru') ∨ (∃ r' ru', t = .closeVia r' ru')) := by
+  constructor
+  · intro pkt res rv now
+    rcases relayed_stage1_shape al x r ru pa pkt res rv now with ⟨_, h | ⟨ex, h, ht, _, hr, _⟩⟩ | ⟨hi, c, _, _, _, _, ht, hr⟩
+    · exact Or.inl h
+    · exact Or.inr ⟨h, ex.id, ht, hr⟩
+    · exact Or.inr ⟨_, hi.id, ht, hr⟩
+  · intro idx res
+    exact (relayed_stage2_shape al x r ru pa idx res).2
+
+-- non-vacuity: a relayed first message installs the tunnel without a remote, records the relay, answers through it
+example : let y := (NodeX.init cfg0).beginHandshake AllowList.everything (.relayed 9 3 2) 77 (some c0) 2 0
+    (y.1.n.main.getList 5).map (fun h => (h.vpnAddrs, h.remote)) = [([2, 5], none)] ∧ y.1.relaysOf 0 = [9] ∧
+    y.2.tx = [.hsVia 0 9 3] := by decide
+-- the same message directly from underlay 3 records underlay 3 and answers there
+example : let y := (NodeX.init cfg0).beginHandshake AllowList.everything (.direct 3) 77 (some c0) 2 0
+    (y.1.n.main.getList 5).map (fun h => (h.vpnAddrs, h.remote)) = [([2, 5], some 3)] ∧ y.1.relaysOf 0 = [] ∧
+    y.2.tx = [.base (.hs 0 [3])] := by decide
+-- non-vacuity of the denial: underlay 1 refused for address 5 → the responder installs nothing; underlay 3 is fine
+example : ((NodeX.init cfg0).beginHandshake alDeny5 (.direct 3) 77 (some c0) 2 0).1.n.main ≠ {} := by decide
+
+section
+open Nebula.HsNet
+
+/-- The correspondence stream runs the EXTENDED network; where no allow list is configured and every tunnel of the
+receiving node has a remote (no relayed handshake happened there), a direct delivery in the extended network IS the
+delivery of the base network (Model/HsNet.lean) that C10 / C31 / C32 are stated over. -/
+theorem unrestricted_direct_delivery_is_base (nx : NetX) (h : Handle) (src to : Nat) (e : Ext)
+    (he : nx.ext[to]? = some e) (hal : e.al = {})
+    (hrem : ∀ nd, nx.w.node? to = some nd → ∀ b t, t ∈ nd.main.getList b → t.remote.isSome) :
+    (nx.deliverVia h (.direct src) to).map (fun r => (r.1.w, r.2.toOut)) = nx.w.deliverTo h src to := by
+  unfold NetX.deliverVia Net.deliverTo NetX.nodeX?
+  have hAl : nx.alOf to = AllowCfg.toList {} := by simp [NetX.alOf, he, hal]
+  cases hn : nx.w.node? to with
+  | none => simp
+  | some nd =>
+    have hrem' := hrem nd hn
+    rw [he]
+    cases hp : alookup h nx.w.pkts with
+    | none => simp [hp]
+    | some ci =>
+      obtain ⟨creator, info⟩ := ci
+      simp only [hp]
+      cases hc : nx.w.node? creator with
+      | none => simp
+      | some cn =>
+        cases info with
+        | s1 hh initIdx time ver =>
+          dsimp only
+          simp only [NodeX.step, hAl]
+          rw [direct_allowed_stage1_is_base _ _ _ _ _ _ _ (unrestricted_unknown src)
+            (fun c _ => unrestricted_all c.certAddrs src) hrem']
+          simp [Node.step, NetX.setNodeX, toOut_toX]
+        | s2 hh respIdx initIdx time ver replyTo =>
+          dsimp only
+          simp only [NodeX.step, hAl]
+          rw [direct_allowed_stage2_is_base _ _ _ _ _ (unrestricted_unknown src)
+            (fun hh _ => unrestricted_all [hh.vpnAddr] src)]
+          simp [Node.step, NetX.setNodeX, toOut_toX]
+          constructor <;> congr
+
 
 end
 
